@@ -816,3 +816,133 @@ func postTree(root *ssa.Function) {
 // sroaMade marks the allocs created by splitStruct: only those are re-promoted (a variable the
 // author wrote as address-taken stays as written).
 var sroaMade = map[*ssa.Alloc]bool{}
+
+// dropDeadClosures removes MakeClosure instructions nothing uses any more (their only use was a
+// call that has been inlined).
+func dropDeadClosures(nf *ssa.Function) {
+	used := map[ssa.Value]bool{}
+	for _, b := range nf.Blocks {
+		for _, in := range b.Instrs {
+			var rands []*ssa.Value
+			for _, p := range in.Operands(rands) {
+				if *p != nil {
+					used[*p] = true
+				}
+			}
+		}
+	}
+	for _, b := range nf.Blocks {
+		del := map[ssa.Instruction]bool{}
+		for _, in := range b.Instrs {
+			if mc, ok := in.(*ssa.MakeClosure); ok && !used[mc] {
+				del[mc] = true
+			}
+		}
+		if len(del) > 0 {
+			removeInstr(b, del)
+		}
+	}
+}
+
+// forwardStructLoads: a local struct that is filled field by field (a composite literal) and then
+// read as a whole — passed by value to an inlined helper or method with a value receiver — has its
+// field reads `Field(*a, i)` replaced by the value stored to field i, when that store is the only
+// one to the field, dominates the load, and nothing else can write the struct (its address is only
+// used for field addresses, whole loads and debug info). Fields never stored read as zero.
+// Requires referrers and dominators (finish). Returns whether anything changed.
+func forwardStructLoads(nf *ssa.Function) bool {
+	changed := false
+	for _, b := range nf.Blocks {
+		for _, in := range b.Instrs {
+			a, ok := in.(*ssa.Alloc)
+			if !ok || a.Referrers() == nil {
+				continue
+			}
+			st, ok := a.Type().Underlying().(*types.Pointer).Elem().Underlying().(*types.Struct)
+			if !ok {
+				continue
+			}
+			okShape := true
+			stores := map[int][]*ssa.Store{}
+			var loads []*ssa.UnOp
+			for _, r := range *a.Referrers() {
+				switch x := r.(type) {
+				case *ssa.FieldAddr:
+					if x.X != ssa.Value(a) || x.Referrers() == nil {
+						okShape = false
+						break
+					}
+					for _, u := range *x.Referrers() {
+						switch y := u.(type) {
+						case *ssa.Store:
+							if y.Addr != ssa.Value(x) {
+								okShape = false // the field address itself is stored somewhere
+							} else {
+								stores[x.Field] = append(stores[x.Field], y)
+							}
+						case *ssa.UnOp:
+							if y.Op != token.MUL {
+								okShape = false
+							}
+						case *ssa.DebugRef:
+						default:
+							okShape = false // address of a field escapes (call, closure …)
+						}
+					}
+				case *ssa.UnOp:
+					if x.Op == token.MUL && x.X == ssa.Value(a) {
+						loads = append(loads, x)
+					} else {
+						okShape = false
+					}
+				case *ssa.DebugRef:
+				default:
+					okShape = false
+				}
+			}
+			if !okShape || len(loads) == 0 {
+				continue
+			}
+			dominates := func(s ssa.Instruction, l ssa.Instruction) bool {
+				if s.Block() == l.Block() {
+					for _, x := range s.Block().Instrs {
+						if x == s {
+							return true
+						}
+						if x == l {
+							return false
+						}
+					}
+				}
+				return s.Block().Dominates(l.Block())
+			}
+			for _, l := range loads {
+				if l.Referrers() == nil {
+					continue
+				}
+				for _, u := range append([]ssa.Instruction(nil), *l.Referrers()...) {
+					f, isField := u.(*ssa.Field)
+					if !isField || f.X != ssa.Value(l) {
+						continue
+					}
+					var val ssa.Value
+					switch ss := stores[f.Field]; len(ss) {
+					case 0:
+						val = ssa.NewConst(nil, st.Field(f.Field).Type())
+					case 1:
+						if dominates(ss[0], l) {
+							val = ss[0].Val
+						}
+					}
+					if val == nil {
+						continue
+					}
+					replaceUses(nf, f, val)
+					removeInstr(f.Block(), map[ssa.Instruction]bool{f: true})
+					changed = true
+				}
+			}
+		}
+	}
+	return changed
+}
